@@ -474,7 +474,7 @@ func (Engine) Shrink(sci interface{}) []interface{} {
 
 func (Engine) Describe() harness.EngineInfo {
 	return harness.EngineInfo{
-		Rule:        "scenario = 2-4 contexts, each running a generated program of 4-17 statements that write context-specific values to and read back " + fmt.Sprint(len(Locs)) + " kinds of reachable state (module globals, attributes of Go modules math/sys/string/time/os incl. os.environ, sys.path and sys.argv in place and by rebinding, new and rebound builtins, a source module imported from a shared virtual file system incl. its list and dict, class attributes, mutable default arguments, attributes of the built-in types int/list/ValueError, a bytes value built in place from a constant of the code object, a SyntaxError kept from a failed compile() and inspected later; every written value carries a tag derived from the context's own sys.path entry so that contexts executing one shared code object write distinguishable values) plus compute loops; 1-4 'hot' locations per scenario so writers and readers collide; 1 in 5 scenarios runs ONE shared code object in all contexts. Tasks are interleaved at every VM instruction and compile-pipeline function entry by a seeded scheduler (random p / PCT d<=4 / quantum). Oracles: solo-run equivalence per context, fingerprint of process-global state (registered module implementations and built-in type dictionaries) unchanged, no panic/deadlock. distinct = distinct (programs, schedule decisions); non-trivial = some location is written by one context and read by another",
+		Rule:        "scenario = 2-4 contexts, each running a generated program of 4-17 statements that write context-specific values to and read back " + fmt.Sprint(len(Locs)) + " kinds of reachable state (module globals, attributes of Go modules math/sys/string/time/os incl. os.environ, sys.path and sys.argv in place and by rebinding, new and rebound builtins, a source module imported from a shared virtual file system incl. its list and dict, class attributes, mutable default arguments, attributes of the built-in types int/list/ValueError, a bytes value built in place from a constant of the code object, a SyntaxError kept from a failed compile() and inspected later, a source module registered process-wide anew for every scenario, classes of other contexts reachable through object.__subclasses__(), a sys.stdout whose write() raises in the middle of a print followed by a print to a healthy stream; every written value carries a tag derived from the context's own sys.path entry so that contexts executing one shared code object write distinguishable values) plus compute loops; 1-4 'hot' locations per scenario so writers and readers collide; 1 in 5 scenarios runs ONE shared code object in all contexts. Tasks are interleaved at every VM instruction and compile-pipeline function entry by a seeded scheduler (random p / PCT d<=4 / quantum). Oracles: solo-run equivalence per context, fingerprint of process-global state (registered module implementations and built-in type dictionaries) unchanged, no panic/deadlock. distinct = distinct (programs, schedule decisions); non-trivial = some location is written by one context and read by another",
 		Real:        []string{"stdlib.context, py.ModuleStore, py.Import machinery", "vm (all contexts share the Go process, package-level state and type objects)", "stdlib modules sys, builtins, math, os, string, time", "parser/symtable/compile (each context compiles its own program)"},
 		Stubbed:     []string{"goroutine interleaving -> cooperative tasks, one per context, preempted at every VM instruction by the seeded scheduler", "sync -> simsync", "file system behind import -> simfs", "Go map iteration order -> simulator"},
 		Assumptions: []string{"os.putenv/chdir (process-wide by nature) are not used; only the os.environ mapping object is probed", "data races proper are decided by mode B (real goroutines under the Go race detector), not by this cooperative mode"},
